@@ -162,6 +162,10 @@ def spec_to_cfg(spec, gobject_gir, skip_block=None):
             decls.append({'d': 'typedef', 'name': cname, 'type': {'k': kw, 'n': '_' + cname}})
             decls.append({'d': kw, 'name': '_' + cname,
                           'fields': [{'name': f, 'type': T('int')} for f in t.get('fields', ['dummy'])]})
+            if t.get('boxed'):
+                # a GType-registered record / union (boxed in the runtime dump): it can have constructors
+                decls.append(fn_decl(us + '_get_type', [], 'GType'))
+                dump.append('<boxed name="%s" get-type="%s_get_type"/>' % (cname, us))
         elif k in ('enum', 'bitfield'):
             decls.append({'d': 'typedef', 'name': cname,
                           'type': {'k': 'enum', 'n': None, 'bitfield': k == 'bitfield',
@@ -182,6 +186,15 @@ def spec_to_cfg(spec, gobject_gir, skip_block=None):
             if f['role'] == 'method':
                 params = [('self', P(T(cname)))] + params
             if f['role'] == 'ctor':
+                ret = P(T(cname))
+            # shapes around 'the signature permits a constructor': a constructor whose FIRST PARAMETER is an
+            # instance of the constructed type ('derive from a template'), or a pointer to another type of the
+            # namespace; a method that also returns an instance
+            if f.get('first') == 'self':
+                params = [('tmpl', P(T(cname)))] + params
+            elif f.get('first'):
+                params = [('other', P(T(ns + f['first'])))] + params
+            if f.get('ret_self'):
                 ret = P(T(cname))
             decls.append(fn_decl(f['symbol'], params, ret))
     for f in spec.get('funcs', []):
@@ -905,6 +918,19 @@ def judge_rename(ctx, cnt, spec, real, case_id):
                                {'kind': 'case', 'spec': spec})
 
 
+def can_construct(spec, t):
+    """the types a function can be a constructor of: a class, or a record / union that is GType-registered
+    (boxed), or a record its own well-formed block marks (foreign)"""
+    if t['k'] == 'class':
+        return True
+    if t['k'] in ('record', 'union') and t.get('boxed'):
+        return True
+    if t['k'] == 'record':
+        bl = [b for b in spec['blocks'] if b['key'] == spec['ns'] + t['name']]
+        return len(bl) == 1 and wellformed(bl[0]) and ann_opts(bl[0], 'foreign') is not None
+    return False
+
+
 def judge_roles(ctx, cnt, spec, real, case_id):
     """constructor / method select the role where the signature permits it; (virtual) names the invoker"""
     elems = real['elems']
@@ -917,8 +943,12 @@ def judge_roles(ctx, cnt, spec, real, case_id):
                 e = elems.get('fn:' + f['symbol'])
                 if e is None:
                     continue
-                if ann_opts(b, 'constructor') is not None and f['role'] == 'ctor' and t['k'] == 'class':
+                if ann_opts(b, 'constructor') is not None and f['role'] == 'ctor' and can_construct(spec, t):
                     cnt.hit('role:constructor-checked')
+                    cnt.hit('role:constructor-checked:%s:first=%s'
+                            % (t['k'] if t['k'] == 'class' else ('boxed-' if t.get('boxed') else 'foreign-') + t['k'],
+                               {None: 'none' if not f.get('nparams') else 'int', 'self': 'self'}.get(f.get('first'),
+                                                                                                   'other')))
                     if e['tag'] != 'constructor' or e.get('container') != ns + t['name']:
                         ctx.report_failure('role-ctor:%s:%s' % (case_id, f['symbol']),
                                            '%s: (constructor) returning %s* should be a constructor of it; GIR has <%s> '
@@ -982,6 +1012,17 @@ def judge_absence(ctx, cnt, spec, real, idx, gobject_gir, case_id):
             continue     # (a static function of a record is written twice: the moved-to original and its copy)
         if b['key'].startswith('SECTION:') and addr == 'docsection:' + b['key'][8:]:
             continue
+        # (foreign) on a record is what lets it have constructors: the functions of that record annotated
+        # (constructor) owe their role to both blocks (without it: a warning, and a method / static function)
+        if ann_opts(b, 'foreign') is not None and target is not None and target.startswith('type:') \
+                and addr.startswith('fn:'):
+            ty = find_type(spec, b['target'][1])
+            sym = addr[3:].split('#')[0]
+            if ty is not None and ty['k'] == 'record' and any(
+                    f['symbol'] == sym and f['role'] == 'ctor' for f in ty.get('funcs', [])) and any(
+                    o['key'] == sym and ann_opts(o, 'constructor') is not None for o in spec['blocks']):
+                cnt.hit('absence:allowed-foreign-enables-constructor')
+                continue
         if x is not None and y is not None:
             sx, sy = x['serial'], y['serial']
             # effects the statement itself ties to the removed block; several can meet on one element (a block
@@ -1354,6 +1395,99 @@ def gen_short(rng):
     return spec
 
 
+CTOR_WORDS = ['derive', 'clone_from', 'make', 'build_with', 'derived_copy', 'new_from', 'new_like', 'dup_into']
+
+
+def add_ctor_shapes(rng, spec, t, others):
+    """functions of type `t` around 'an explicit (constructor) on a function whose signature permits it makes it
+    a constructor': annotated (constructor), returning t*, symbol under t's prefix, with as FIRST PARAMETER an
+    instance of t itself ('derive from a template'), nothing / an int, or a pointer to another type; and the
+    un-annotated function of the same shape (t* first, returns t*: a method by the name heuristic)"""
+    pre = uscore(spec['ns']) + '_'
+    us = pre + uscore(t['name']) + '_'
+    used = set(f[0] for f in all_functions(spec))
+    words = rng.sample(CTOR_WORDS, len(CTOR_WORDS))
+    shapes = ['self', 'self-unannotated'] + rng.sample(['none', 'other', 'self', 'self-unannotated'], rng.randint(1, 3))
+    new_blocks = []
+    for shape in shapes:
+        if shape == 'other' and not others:
+            shape = 'none'
+        w = words.pop()
+        sym = us + w
+        if sym in used:
+            continue
+        used.add(sym)
+        np_ = rng.randint(0, 2)
+        if shape == 'self-unannotated':
+            f = {'symbol': sym, 'role': 'method', 'nparams': np_, 'ret_self': True}
+            params = ['self']
+        else:
+            f = {'symbol': sym, 'role': 'ctor', 'nparams': np_}
+            params = []
+            if shape == 'self':
+                f['first'] = 'self'
+                params = ['tmpl']
+            elif shape == 'other':
+                f['first'] = rng.choice(others)
+                params = ['other']
+        t.setdefault('funcs', []).append(f)
+        if shape == 'self-unannotated' and rng.random() < 0.5:
+            continue
+        if rng.random() < 0.5:
+            b = gen_block_content(rng, 'function', [], heavy=False)
+            b['anns'] = [a for a in b['anns'] if a[0] == 'skip']
+        else:
+            b = {'anns': [], 'description': 'Makes a %s.' % t['name']}
+        b['key'] = sym
+        b['target'] = ('fn', sym)
+        b['params'] = params + ['p%d' % i for i in range(np_)]
+        if shape != 'self-unannotated':
+            b['anns'].append(['constructor', []])
+        new_blocks.append(b)
+    for b in new_blocks:
+        spec['blocks'].insert(rng.randint(0, len(spec['blocks'])), b)
+
+
+def gen_ctor_self(rng):
+    """namespaces where annotated constructors take an instance of the constructed type first: half of them
+    small (a class, a GType-registered record / union, a (foreign) record), half of them the usual rich
+    namespaces of gen_spec with these functions added to every type that can have constructors"""
+    if rng.random() < 0.5:
+        ns = rng.choice(['Foo', 'Foo', 'Gx', 'FooBar'])
+        spec = {'ns': ns, 'types': [], 'funcs': [], 'blocks': []}
+        names = rng.sample(['Thing', 'Bar', 'Item', 'Node', 'Box', 'Widget'], rng.randint(2, 4))
+        for i, tn in enumerate(names):
+            k = rng.choice(['class', 'boxed-record', 'boxed-union', 'foreign-record']) if i < len(names) - 1 \
+                else rng.choice(['record', 'class', 'boxed-record'])
+            if k == 'class':
+                t = {'k': 'class', 'name': tn, 'has_struct': rng.random() < 0.85, 'has_class_struct': rng.random() < 0.8,
+                     'fields': [], 'props': [], 'sigs': [], 'vslots': [], 'funcs': []}
+            else:
+                t = {'k': 'union' if k.endswith('union') else 'record', 'name': tn,
+                     'fields': rng.sample(WORDS, rng.randint(1, 2)), 'funcs': []}
+                if k.startswith('boxed'):
+                    t['boxed'] = True
+                if k.startswith('foreign'):
+                    spec['blocks'].append({'key': ns + tn, 'target': ('type', tn), 'anns': [['foreign', []]],
+                                           'description': 'A %s.' % tn})
+            spec['types'].append(t)
+    else:
+        spec = gen_spec(rng, size=rng.randint(2, 5))
+        for t in spec['types']:
+            if t['k'] in ('record', 'union') and rng.random() < 0.4:
+                t['boxed'] = True
+    pre = uscore(spec['ns']) + '_'
+    prefixes = [pre + uscore(t['name']) for t in spec['types'] if t['k'] != 'constant']
+    for t in spec['types']:
+        mine = pre + uscore(t['name'])
+        # (a type whose symbol prefix is shared with, or extended by, another type is C04's subject)
+        if not can_construct(spec, t) or prefixes.count(mine) > 1 or any(p.startswith(mine + '_') for p in prefixes):
+            continue
+        others = [o['name'] for o in spec['types'] if o is not t and o['k'] in ('class', 'record', 'union', 'interface')]
+        add_ctor_shapes(rng, spec, t, others)
+    return spec
+
+
 def gen_malformed(rng):
     """syntactically broken or wrongly targeted annotations: the oracle judges only what stays in scope"""
     spec = gen_spec(rng, size=rng.randint(2, 4))
@@ -1544,12 +1678,18 @@ def run(ctx):
     import random
     srng = random.Random(ctx.seed * 1000003 + 3 + 0x5107)   # (own generator: the other streams are as before)
 
+    krng = random.Random(ctx.seed * 1000003 + 3 + 0xC705)
+    n_ctor = ctx.n(40, 1000)
+
     def tasks():
         for cid, spec in corpus:
             yield (cid, spec, 'corpus', max(n_absence, len(spec['blocks'])), rng.getrandbits(32))
         # short identifiers first: the stream is complete on every run, whatever the time budget does later
         for i in range(n_short):
             yield ('s%d' % i, gen_short(srng), 'short', n_absence, srng.getrandbits(32))
+        # annotated constructors taking an instance first: complete on every run as well
+        for i in range(n_ctor):
+            yield ('k%d' % i, gen_ctor_self(krng), 'ctor-self', n_absence, krng.getrandbits(32))
         for i in range(n_cases):
             yield ('g%d' % i, gen_spec(rng), 'valid', n_absence, rng.getrandbits(32))
         for i in range(n_mal):
@@ -1668,7 +1808,11 @@ def run(ctx):
                 '(virtual), role annotations, wrong-kind annotations and near-miss keys; a malformed stream (missing or '
                 'surplus options, rename-to an enum member, (virtual) on a record method); a stream of the same namespaces '
                 'with one- and two-character field / property / signal / slot / method / member / type names and a '
-                'Struct.field block for nearly every field (complete on every run). Every namespace: real pipeline '
+                'Struct.field block for nearly every field (complete on every run); a stream (complete on every run) of '
+                'small and rich namespaces where every class / GType-registered record or union / (foreign) record gets '
+                'functions annotated (constructor) that return an instance and take as first parameter an instance of '
+                'the constructed type itself, nothing / an int, or a pointer to another type, plus the un-annotated '
+                'function of the same shape (judged: the annotated ones are <constructor> of that type). Every namespace: real pipeline '
                 'vs model on every element record; statement oracle: presence on the target, absence elsewhere by '
                 're-scanning without one block at a time (%d blocks per namespace). non-trivial = at least one block '
                 'and five GIR elements; distinct by content hash.' % n_absence,
